@@ -294,7 +294,8 @@ def read_ranges(draw, model, count):
     return out
 
 
-ARGFORMS = ["plain", "plain", "plain", "strided", "strided", "list", "int64", "swapped", "onedim", "defnext", "npidx"]
+ARGFORMS = ["plain", "plain", "plain", "strided", "strided", "list", "int64", "swapped", "onedim", "defnext", "npidx", "cplxnd",
+            "cplxnd-other"]
 
 
 def draw_call_forms(draw, case):
